@@ -24,6 +24,11 @@ if ! cargo build --offline --release -p checks --bin "$bin" > $H/build.log 2>&1;
 fi
 if [ "$ID" = "C18" ]; then cargo build --offline --release -p c18log >> $H/build.log 2>&1; export VERIF_C18LOG_BIN=$H/target/release/c18log; fi
 if [ "$ID" = "C01" ]; then cargo build --offline --release -p c01cap >> $H/build.log 2>&1; export VERIF_C01CAP_BIN=$H/target/release/c01cap; fi
+case "$ID" in C07|C08|C09|C11|C14)
+  if [ "$TIER" = "thorough" ]; then
+    cargo build --offline --profile dbgassert -p checks --bin "$bin" >> $H/build.log 2>&1 && export VERIF_${ID}_DBG_BIN=$H/target/dbgassert/$bin
+  fi;;
+esac
 VERIF_ROOT=$H $H/target/release/$bin "$TIER" "$@" > $H/out.log 2>&1; rc=$?
 git -C $WT checkout -q -- .
 grep -E "^(VIOLATION|KNOWN-FINDING|HELD|TOO-LITTLE|HARNESS|OBSERVED|INCONCLUSIVE)" $H/out.log | cut -c1-400 | head -8
